@@ -104,6 +104,28 @@ MUTANTS: List[dict] = [
     _m("c08-lookup-reported-first", "C08", "sensor.py", "        if value is not None:\n            return value\n\n        child = self.children[child_id]\n\n        return child.values.get(value_type)", "        child = self.children[child_id]\n        reported = child.values.get(value_type)\n        if reported is not None:\n            return reported\n        return value", "C08-R4"),
     _m("c08-ctor-validates-node-version", "C08", "__init__.py", "        msg.validate(self.protocol_version)\n\n        return msg", "        msg.validate(sensor.protocol_version)\n\n        return msg", "C08-R5"),
     _m("c08-benign-flush-local-tasks", "C08", "handler.py", "    while sensor.queue:\n        job = sensor.queue.popleft()\n        msg.gateway.tasks.add_job(str, job)", "    tasks = msg.gateway.tasks\n    while sensor.queue:\n        job = sensor.queue.popleft()\n        tasks.add_job(str, job)", "", silent=True),
+    # ------------------------------------------------------------------ C05
+    _m("c05-config-always-metric", "C05", "handler.py", "payload=\"M\" if msg.gateway.metric else \"I\"", "payload=\"M\" if msg.gateway.can_log else \"I\"", "I_CONFIG"),
+    _m("c05-config-wrong-letter", "C05", "handler.py", "payload=\"M\" if msg.gateway.metric else \"I\"", "payload=\"M\" if msg.gateway.metric else \"F\"", "C05-R"),
+    _m("c05-req-answers-as-req", "C05", "handler.py", "    return msg.copy(type=msg.gateway.const.MessageType.set, payload=value)", "    return msg.copy(payload=value)", "reply shape for req"),
+    _m("c05-discover-not-broadcast", "C05", "handler.py", "        node_id=255, ack=0, sub_type=msg.gateway.const.Internal.I_DISCOVER, payload=\"\"", "        ack=0, sub_type=msg.gateway.const.Internal.I_DISCOVER, payload=\"\"", "I_GATEWAY_READY"),
+    _m("c05-discover-payload", "C05", "handler.py", "sub_type=msg.gateway.const.Internal.I_DISCOVER, payload=\"\"", "sub_type=msg.gateway.const.Internal.I_DISCOVER, payload=\"1\"", "C05-R"),
+    _m("c05-reboot-to-child", "C05", "handler.py", "            child_id=SYSTEM_CHILD_ID,\n            type=msg.gateway.const.MessageType.internal,\n            ack=0,\n            sub_type=msg.gateway.const.Internal.I_REBOOT,", "            type=msg.gateway.const.MessageType.internal,\n            ack=0,\n            sub_type=msg.gateway.const.Internal.I_REBOOT,", "reply shape for set"),
+    _m("c05-reboot-unconditional", "C05", "handler.py", "    # Check if reboot is true\n    if sensor.reboot:\n", "    # Check if reboot is true\n    if sensor.reboot or sensor.children:\n", "reply shape for set"),
+    _m("c05-battery-level-echo", "C05", "handler.py", "    msg.gateway.sensors[msg.node_id].battery_level = msg.payload\n    msg.gateway.alert(msg)\n    return None", "    msg.gateway.sensors[msg.node_id].battery_level = msg.payload\n    msg.gateway.alert(msg)\n    return msg.copy(ack=0)", "I_BATTERY_LEVEL"),
+    _m("c05-time-ack-kept", "C05", "handler.py", "    return msg.copy(ack=0, payload=calendar.timegm(time.localtime()))", "    return msg.copy(payload=calendar.timegm(time.localtime()))", "I_TIME"),
+    _m("c05-presentation-request-to-gateway", "C05", "__init__.py", "                node_id=sensorid,\n                child_id=SYSTEM_CHILD_ID,", "                node_id=0,\n                child_id=SYSTEM_CHILD_ID,", "C05-R2"),
+    _m("c05-presentation-request-old-versions", "C05", "__init__.py", "AwesomeVersion(self.protocol_version) >= AwesomeVersion(\"2.0\")", "AwesomeVersion(self.protocol_version) >= AwesomeVersion(\"1.5\")", "C05-R2"),
+    _m("c05-id-response-reply-subtype", "C05", "handler.py", "sub_type=msg.gateway.const.Internal[\"I_ID_RESPONSE\"], payload=node_id", "sub_type=msg.gateway.const.Internal[\"I_ID_REQUEST\"], payload=node_id", "I_ID_REQUEST"),
+    _m("c05-benign-reply-local", "C05", "handler.py", "    return msg.copy(ack=0, payload=\"M\" if msg.gateway.metric else \"I\")", "    unit = \"M\" if msg.gateway.metric else \"I\"\n    reply = msg.copy(ack=0, payload=unit)\n    return reply", "", silent=True),
+    # ------------------------------------------------------------------ C06
+    _m("c06-next-id-no-plus-one", "C06", "__init__.py", "next_id = max(self.sensors.keys()) + 1", "next_id = max(self.sensors.keys())", "C06-R"),
+    _m("c06-next-id-len", "C06", "__init__.py", "next_id = max(self.sensors.keys()) + 1", "next_id = len(self.sensors) + 1", "C06-R1"),
+    _m("c06-bound-255", "C06", "__init__.py", "        if next_id <= self.const.MAX_NODE_ID:", "        if next_id <= self.const.MAX_NODE_ID + 1:", "C06-R2"),
+    _m("c06-first-id-zero", "C06", "__init__.py", "        else:\n            next_id = 1\n", "        else:\n            next_id = 0\n", "C06-R"),
+    _m("c06-reply-before-reserve", "C06", "handler.py", "    node_id = msg.gateway.add_sensor()\n    if node_id is None:\n        return None", "    node_id = msg.gateway._get_next_id()\n    if node_id is None:\n        return None", "C06-R3"),
+    _m("c06-max-node-id-const", "C06", "const_14.py", "MAX_NODE_ID = 254", "MAX_NODE_ID = 255", "C06-R2"),
+    _m("c06-benign-next-id-expr", "C06", "__init__.py", "        if next_id <= self.const.MAX_NODE_ID:\n            return next_id\n        return None", "        if next_id > self.const.MAX_NODE_ID:\n            return None\n        return next_id", "", silent=True),
 ]
 
 
